@@ -24,6 +24,7 @@ import (
 	"strings"
 	"sync/atomic"
 	"testing"
+	"verifharness/gen"
 
 	"github.com/goose-lang/goose"
 	"pgregory.net/rapid"
@@ -450,7 +451,7 @@ var plainLeaves = []string{gmod.Machine, "sync", "fmt", "log", gmod.GokvTime}
 var dirPool = []string{"a", "b", "util", "core", "kv", "store", "my-pkg", "v1.2", "sub/x", "sub/y", "trusted_t", "zz/deep/er"}
 var fileNames = []string{"a.go", "b.go", "m.go", "z.go", "x_y.go", "c.go", "k9.go"}
 
-func use(ip, name string) string {
+func use(ip, name string, idx int) string {
 	switch ip {
 	case gmod.MachineDisk, gmod.PrimitiveDisk, gmod.MachineAsync, gmod.PrimitiveAsync:
 		return "\ts = s + " + name + ".BlockSize\n"
@@ -467,8 +468,18 @@ func use(ip, name string) string {
 	case "log":
 		return "\tlog.Println(\"x\")\n"
 	}
-	return "\t" + name + ".F()\n"
+	// a package of the generated module: use its exported struct type, method, constructor and
+	// constant, so that names qualified relative to the translating package (pkg.P vs P) appear
+	// in both the declaring and the using package (seeded change C06-3)
+	v := fmt.Sprintf("%d", idx)
+	return "\t" + name + ".F()\n" +
+		"\tp" + v + " := &" + name + ".P{A: s + " + name + ".K, B: false}\n" +
+		"\tq" + v + " := " + name + ".MkP(p" + v + ".A)\n" +
+		"\ts = s + q" + v + ".A + p" + v + ".GetA()\n"
 }
+
+// exportedDecls is part of every generated package (see use).
+const exportedDecls = "// P is an exported pair.\ntype P struct {\n\tA uint64\n\tB bool\n}\n\nfunc (p *P) GetA() uint64 {\n\treturn p.A\n}\n\nfunc MkP(a uint64) P {\n\treturn P{A: a, B: true}\n}\n\nconst K uint64 = 7\n"
 
 // declaration templates; %[1]d is the declaration's own id, %[2]d / %[3]d are
 // ids of a Sum / const (or struct) declaration of the same package.
@@ -502,8 +513,8 @@ func genModule(t *rapid.T) (gmod.Module, []int, genInfo) {
 	var info genInfo
 	swTwo := ev.SwitchOn(swTwoFfi)
 	m.Path = rapid.SampledFrom([]string{"example.com/m", "ex-ample.com/my.mod"}).Draw(t, "modpath")
-	n := rapid.IntRange(3, 8).Draw(t, "npkgs")
-	wantTwo := rapid.IntRange(0, 3).Draw(t, "wantTwoFfi") == 0
+	n := gen.Range(t, "npkgs", 3, 8)
+	wantTwo := gen.Range(t, "wantTwoFfi", 0, 3) == 0
 	allowTwo := wantTwo && !swTwo
 	dirs := rapid.Permutation(append([]string(nil), dirPool...)).Draw(t, "dirs")[:n]
 	name := func(dir string) string { return mapPath(dir[strings.LastIndex(dir, "/")+1:]) }
@@ -525,15 +536,15 @@ func genModule(t *rapid.T) (gmod.Module, []int, genInfo) {
 			if j == 0 {
 				p = 6 // a hub that many packages share
 			}
-			if rapid.IntRange(0, 9).Draw(t, "imp") < p {
+			if gen.Range(t, "imp", 0, 9) < p {
 				cands = append(cands, m.Path+"/"+dirs[j])
 			}
 		}
-		if rapid.IntRange(0, 9).Draw(t, "ffiKind") < 3 {
+		if gen.Range(t, "ffiKind", 0, 9) < 3 {
 			cands = append(cands, rapid.SampledFrom(ffiLeaves).Draw(t, "ffi"))
 		}
 		for _, l := range plainLeaves {
-			if rapid.IntRange(0, 9).Draw(t, "leaf") < 2 {
+			if gen.Range(t, "leaf", 0, 9) < 2 {
 				cands = append(cands, l)
 			}
 		}
@@ -563,20 +574,20 @@ func genModule(t *rapid.T) (gmod.Module, []int, genInfo) {
 
 		// declarations: a base set, extras, possibly documented rejections
 		var decls []string
-		decls = append(decls, "func F() {\n}\n")
+		decls = append(decls, "func F() {\n}\n", exportedDecls)
 		id := 0
 		var sums, consts, structs []int
 		add := func(k int) {
 			id++
 			a, b, s := 0, 0, 0
 			if len(sums) > 0 {
-				a = sums[rapid.IntRange(0, len(sums)-1).Draw(t, "sumRef")]
+				a = sums[gen.Range(t, "sumRef", 0, len(sums)-1)]
 			}
 			if len(consts) > 0 {
-				b = consts[rapid.IntRange(0, len(consts)-1).Draw(t, "constRef")]
+				b = consts[gen.Range(t, "constRef", 0, len(consts)-1)]
 			}
 			if len(structs) > 0 {
-				s = structs[rapid.IntRange(0, len(structs)-1).Draw(t, "structRef")]
+				s = structs[gen.Range(t, "structRef", 0, len(structs)-1)]
 			}
 			decls = append(decls, fmt.Sprintf(goodDecls[k], id, a, b, s)+"")
 			switch k {
@@ -591,35 +602,35 @@ func genModule(t *rapid.T) (gmod.Module, []int, genInfo) {
 		add(0)
 		add(1)
 		add(2)
-		for k := rapid.IntRange(1, 6).Draw(t, "extraDecls"); k > 0; k-- {
-			add(rapid.IntRange(0, len(goodDecls)-1).Draw(t, "declKind"))
+		for k := gen.Range(t, "extraDecls", 1, 6); k > 0; k-- {
+			add(gen.Range(t, "declKind", 0, len(goodDecls)-1))
 		}
 		hasErr := false
-		if rapid.IntRange(0, 9).Draw(t, "errs") < 3 {
-			for k := rapid.IntRange(1, 2).Draw(t, "nbad"); k > 0; k-- {
+		if gen.Range(t, "errs", 0, 9) < 3 {
+			for k := gen.Range(t, "nbad", 1, 2); k > 0; k-- {
 				id++
-				decls = append(decls, fmt.Sprintf(badDecls[rapid.IntRange(0, len(badDecls)-1).Draw(t, "badKind")], id))
+				decls = append(decls, fmt.Sprintf(badDecls[gen.Range(t, "badKind", 0, len(badDecls)-1)], id))
 				hasErr = true
 			}
 		}
 		// files
-		nf := rapid.IntRange(1, 3).Draw(t, "nfiles")
+		nf := gen.Range(t, "nfiles", 1, 3)
 		fnames := rapid.Permutation(append([]string(nil), fileNames...)).Draw(t, "fileNames")
 		files := make([]gmod.File, nf)
 		has := make([]map[string]bool, nf)
 		bodies := make([][]string, nf)
 		for k := range files {
 			files[k].Name = fnames[k]
-			files[k].Style = rapid.IntRange(0, 2).Draw(t, "style")
+			files[k].Style = gen.Range(t, "style", 0, 2)
 			has[k] = map[string]bool{}
 		}
 		for _, d := range rapid.Permutation(decls).Draw(t, "declOrder") {
-			k := rapid.IntRange(0, nf-1).Draw(t, "declFile")
+			k := gen.Range(t, "declFile", 0, nf-1)
 			bodies[k] = append(bodies[k], d)
 		}
 		var kept []string
 		for _, c := range rapid.Permutation(append([]string(nil), imps...)).Draw(t, "importOrder") {
-			first := rapid.IntRange(0, nf-1).Draw(t, "file")
+			first := gen.Range(t, "file", 0, nf-1)
 			placed := false
 			for d := 0; d < nf && !placed; d++ {
 				k := (first + d) % nf
@@ -632,7 +643,7 @@ func genModule(t *rapid.T) (gmod.Module, []int, genInfo) {
 			if placed {
 				kept = append(kept, c)
 				for k := 0; k < nf; k++ {
-					if !has[k][pkgName[c]] && rapid.IntRange(0, 3).Draw(t, "repeat") == 0 {
+					if !has[k][pkgName[c]] && gen.Range(t, "repeat", 0, 3) == 0 {
 						files[k].Imports = append(files[k].Imports, c)
 						has[k][pkgName[c]] = true
 					}
@@ -647,8 +658,8 @@ func genModule(t *rapid.T) (gmod.Module, []int, genInfo) {
 			}
 			if len(files[k].Imports) > 0 {
 				fmt.Fprintf(&b, "func U%d() uint64 {\n\tvar s uint64 = 0\n", k)
-				for _, c := range files[k].Imports {
-					b.WriteString(use(c, pkgName[c]))
+				for ci, c := range files[k].Imports {
+					b.WriteString(use(c, pkgName[c], ci))
 				}
 				b.WriteString("\treturn s\n}\n")
 			}
@@ -676,9 +687,9 @@ func genInvs(t *rapid.T, n int, count int) []Inv {
 		inv.Via = rapid.SampledFrom([]string{"lib", "bin", "bin"}).Draw(t, "via")
 		inv.Procs = rapid.SampledFrom(procsPool).Draw(t, "procs")
 		inv.Reps = rapid.SampledFrom([]int{1, 1, 2, 3, 5}).Draw(t, "reps")
-		inv.IgnoreErrors = rapid.IntRange(0, 3).Draw(t, "ignoreErrors") == 0
+		inv.IgnoreErrors = gen.Range(t, "ignoreErrors", 0, 3) == 0
 		ord := rapid.Permutation(indices(n)).Draw(t, "order")
-		switch rapid.IntRange(0, 5).Draw(t, "selection") {
+		switch gen.Range(t, "selection", 0, 5) {
 		case 0:
 			inv.Pkgs = ord
 			inv.Dots = true
@@ -687,7 +698,7 @@ func genInvs(t *rapid.T, n int, count int) []Inv {
 		case 3:
 			inv.Pkgs = ord[:1]
 		default:
-			inv.Pkgs = ord[:rapid.IntRange(2, n).Draw(t, "subset")]
+			inv.Pkgs = ord[:gen.Range(t, "subset", 2, n)]
 		}
 		invs = append(invs, inv)
 	}
@@ -705,7 +716,7 @@ func indices(n int) []int {
 func genFlags(t *rapid.T) []string {
 	var fl []string
 	for _, f := range flagPool {
-		if rapid.IntRange(0, 3).Draw(t, "flag") == 0 {
+		if gen.Range(t, "flag", 0, 3) == 0 {
 			fl = append(fl, f)
 		}
 	}
@@ -835,13 +846,13 @@ func check(t ev.TB, c Case) {
 func genCase(t *rapid.T) Case {
 	var c Case
 	c.Flags = genFlags(t)
-	if rapid.IntRange(0, 7).Draw(t, "repoExamples") == 0 {
+	if gen.Range(t, "repoExamples", 0, 7) == 0 {
 		c.Repo = true
-		c.Invs = genInvs(t, nExamples, rapid.IntRange(2, 4).Draw(t, "ninvs"))
+		c.Invs = genInvs(t, nExamples, gen.Range(t, "ninvs", 2, 4))
 		return c
 	}
 	c.Mod, c.TwoFfi, _ = genModule(t)
-	c.Invs = genInvs(t, len(c.Mod.Pkgs), rapid.IntRange(4, 8).Draw(t, "ninvs"))
+	c.Invs = genInvs(t, len(c.Mod.Pkgs), gen.Range(t, "ninvs", 4, 8))
 	return c
 }
 
